@@ -31,3 +31,9 @@ def run(ctx):
         "unquoting distributes over the split points (a `$` is never inside an escape sequence of a valid literal)",
     ]
     common.standard(ctx, "GopModel.Props.C05", "c05", 3000, 60000, RULE, driver="drv_range")
+
+
+def replay(ctx, obj):
+    from .. import replay as rp
+    ctx.driver_exe = "drv_range"
+    return rp.generic(ctx, obj)
